@@ -223,10 +223,10 @@ func TestDrv_C18(t *testing.T) {
 		}
 	}
 	// ConnectTo alone: rotation over 1..4 replacements, sequential (exact) and concurrent (even), and an unmapped address
-	for nrep := 1; nrep <= 4; nrep++ {
+	for _, nrep := range []int{1, 2, 3, 4, 11} {
 		var repl []string
 		for i := 0; i < nrep; i++ {
-			repl = append(repl, fmt.Sprintf("10.9.%d.%d:70%d", nrep, i+1, i))
+			repl = append(repl, fmt.Sprintf("10.9.%d.%d:%d", nrep, i+1, 7000+i))
 		}
 		cmap := map[string][]string{"mapped.test:80": repl, "other.test:80": {"10.9.9.9:1"}}
 		for _, sequential := range []bool{true, false} {
